@@ -403,6 +403,12 @@ class Model:
     def _peek(self, name):
         pass
 
+    def _failop(self, name):
+        pass  # a statement that raises changes nothing
+
+    def _failset(self, name):
+        pass
+
     raw_ok = None  # {time: bool}: whether the caller's direct write to .data went through (observed on the implementation)
 
     def _rawwrite(self, name):
@@ -560,6 +566,24 @@ class Impl:
         """re-use through a view that is dropped at once"""
         self.t[name][:1]
 
+    def _failop(self, name):
+        """a new operation on the tensor that raises (shape mismatch)"""
+        try:
+            self.t[name] + np.zeros(7)
+        except ValueError as e:
+            del e
+            return
+        raise RuntimeError("harness: the failing op did not raise")
+
+    def _failset(self, name):
+        """an in-place update of the tensor that raises (shape mismatch)"""
+        try:
+            self.t[name][...] = np.zeros(7)
+        except ValueError as e:
+            del e
+            return
+        raise RuntimeError("harness: the failing update did not raise")
+
     def _rawwrite(self, name):
         """the caller writes into the tensor's array directly; the memory guard must refuse while a live graph uses it"""
         try:
@@ -604,6 +628,10 @@ def render(st):
             st[2], render_val(st[3]), render_val(st[4]), st[1], st[1], st[5])
     if k == "setshape":
         return "%s.shape = %r" % (st[1], tuple(st[2]))
+    if k == "failop":
+        return "try: %s + np.zeros(7)\nexcept ValueError: pass" % st[1]
+    if k == "failset":
+        return "try: %s[...] = np.zeros(7)\nexcept ValueError: pass" % st[1]
     if k == "badshape":
         return "try: %s.shape = %r  # NumPy rejects this\nexcept Exception: pass" % (st[1], tuple(st[2]))
     if k == "del":
@@ -679,7 +707,7 @@ def uses(st):
     elif k == "out":
         u.append(st[1])
         u += [v[1] for v in (st[3], st[4]) if v[0] == "t"]
-    elif k in ("setshape", "badshape", "del", "backward", "clear", "null_grad", "reuse", "fail", "peek", "rawwrite", "outc"):
+    elif k in ("setshape", "badshape", "failop", "failset", "del", "backward", "clear", "null_grad", "reuse", "fail", "peek", "rawwrite", "outc"):
         u.append(st[1])
     return u
 
